@@ -410,7 +410,9 @@ class Visitor:
 
         property_function = self.get_base_property(decorators, function)
 
-        if overload:
+        # Only modules and classes collect overloads: in a function body
+        # (visited for `__init__`), an overload is a local function like any other.
+        if overload and self.current.kind in {Kind.MODULE, Kind.CLASS}:
             self.current.overloads[function.name].append(function)
         elif property_function:
             base_property: Attribute = self.current.members[node.name]  # type: ignore[assignment]
